@@ -256,6 +256,47 @@ def stdStopSrc : List GE :=
                 (.atom "issmall(sum_->az.fit_dist().variance())"))], "ret", "", "true"⟩,
    ⟨[], "ret", "", "false"⟩]
 
+/-! the three `tune_parameters` as read and modelled by Tune.lean (`tuneBase`, `tuneSrc`, `tuneGa`):
+    `constrained` = the user's request `u` (a snapshot taken before the assignments), `dflt` = `Env.dflt`,
+    `!constrained.x` = "x is open".  The values are tied by the differential run; these tables make any
+    edit of the bodies (a changed default expression, a new or dropped assignment, a changed guard) visible. -/
+
+def tuneBaseSrc : List GE := [
+  ⟨[], "decl", "dflt", "shape(environment().init())"⟩,
+  ⟨[], "decl", "constrained", "prob_.env"⟩,
+  ⟨[("if", (.not (.atom "constrained.mep.code_length")))], "set", "prob_.env.mep.code_length", "max(dflt.mep.code_length, (constrained.mep.patch_length + 1))"⟩,
+  ⟨[("if", (.not (.atom "constrained.mep.patch_length")))], "set", "prob_.env.mep.patch_length", "min((1 + (prob_.sset.terminals(0) / 2)), (prob_.env.mep.code_length - 1))"⟩,
+  ⟨[("if", (.cmp .eq "constrained.elitism" "trilean::unknown"))], "set", "prob_.env.elitism", "dflt.elitism"⟩,
+  ⟨[("if", (.cmp .lt "constrained.p_mutation" "0"))], "set", "prob_.env.p_mutation", "dflt.p_mutation"⟩,
+  ⟨[("if", (.cmp .lt "constrained.p_cross" "0"))], "set", "prob_.env.p_cross", "dflt.p_cross"⟩,
+  ⟨[("if", (.not (.atom "constrained.brood_recombination")))], "set", "prob_.env.brood_recombination", "dflt.brood_recombination"⟩,
+  ⟨[("if", (.not (.atom "constrained.layers")))], "set", "prob_.env.layers", "dflt.layers"⟩,
+  ⟨[("if", (.not (.atom "constrained.individuals")))], "set", "prob_.env.individuals", "max({dflt.individuals, constrained.min_individuals, constrained.tournament_size})"⟩,
+  ⟨[("if", (.not (.atom "constrained.min_individuals")))], "set", "prob_.env.min_individuals", "min(dflt.min_individuals, prob_.env.individuals)"⟩,
+  ⟨[("if", (.not (.atom "constrained.tournament_size")))], "set", "prob_.env.tournament_size", "min({dflt.tournament_size, prob_.env.individuals, (constrained.mate_zone ? constrained.mate_zone : dflt.tournament_size)})"⟩,
+  ⟨[("if", (.not (.atom "constrained.mate_zone")))], "set", "prob_.env.mate_zone", "max(dflt.mate_zone, prob_.env.tournament_size)"⟩,
+  ⟨[("if", (.not (.atom "constrained.generations")))], "set", "prob_.env.generations", "dflt.generations"⟩,
+  ⟨[("if", (.not (.atom "constrained.max_stuck_time.has_value()")))], "set", "prob_.env.max_stuck_time", "dflt.max_stuck_time"⟩]
+
+def tuneSrcSrc : List GE := [
+  ⟨[], "decl", "dflt", "shape(environment().init())"⟩,
+  ⟨[], "decl", "constrained", "prob().env"⟩,
+  ⟨[], "call", "", "tune_parameters()"⟩,
+  ⟨[], "decl", "d_size", "training_data().size()"⟩,
+  ⟨[("if", (.not (.atom "constrained.layers"))), ("if", (.and (.cmp .gt "dflt.layers" "1") (.cmp .gt "d_size" "8")))], "set", "prob().env.layers", "decltype(dflt.layers)(log(d_size))"⟩,
+  ⟨[("if", (.not (.atom "constrained.layers"))), ("else", (.and (.cmp .gt "dflt.layers" "1") (.cmp .gt "d_size" "8")))], "set", "prob().env.layers", "dflt.layers"⟩,
+  ⟨[("if", (.not (.atom "constrained.individuals"))), ("if", (.cmp .gt "d_size" "8"))], "set", "prob().env.individuals", "((2 * decltype(dflt.individuals)(pow(log2(d_size), 3))) / prob().env.layers)"⟩,
+  ⟨[("if", (.not (.atom "constrained.individuals"))), ("else", (.cmp .gt "d_size" "8"))], "set", "prob().env.individuals", "dflt.individuals"⟩,
+  ⟨[("if", (.not (.atom "constrained.individuals"))), ("if", (.cmp .lt "prob().env.individuals" "4"))], "set", "prob().env.individuals", "4"⟩,
+  ⟨[("if", (.not (.atom "constrained.individuals")))], "set", "prob().env.individuals", "max({prob().env.individuals, constrained.min_individuals, constrained.tournament_size})"⟩,
+  ⟨[("if", (.not (.atom "constrained.individuals"))), ("if", (.not (.atom "constrained.tournament_size")))], "set", "prob().env.tournament_size", "min(prob().env.tournament_size, prob().env.individuals)"⟩,
+  ⟨[("if", (.and (.not (.atom "constrained.dss.has_value()")) (.cmp .eq "typeid(vs_.get())" "typeid(dss)")))], "set", "prob().env.dss", "dflt.dss"⟩,
+  ⟨[("if", (.and (.not (.atom "constrained.validation_percentage.has_value()")) (.cmp .eq "typeid(vs_.get())" "typeid(holdout_validation)")))], "set", "prob().env.validation_percentage", "dflt.validation_percentage"⟩]
+
+def tuneGaSrc : List GE := [
+  ⟨[], "call", "", "tune_parameters()"⟩,
+  ⟨[("if", (.cmp .lt "prob_.env.min_individuals" "10"))], "set", "prob_.env.min_individuals", "min(10, prob_.env.individuals)"⟩]
+
 end Model
 
 /-! ### the model functions are the interpretation of the tables -/
